@@ -7,11 +7,17 @@ PROP = {
              "big.Int types (Uint/Int128/256/257, VarUInteger1..32) at 0, max, -1, min, 2^(w-1) and random; BitsN (80..512), ton.Bits256, "
              "tl.Int256 at zero / ff / random bytes; Grams at 0, 1, 2^63-1, 2^63, 2^64-1; SignedCoins at min/max int64 and negatives; "
              "Magic at 0, 1, 15, 16, 2^31, 2^32-1; bit strings of 0,1,2,3,4,5,7,8,9,12,255,256,257,511,1020..1023 bits and random "
-             "lengths; MsgAddress: none, extern of 0 (known finding), 1,3,4,8,255,256,257,511 bits, std with workchains -128,-127,-1,0,1,"
+             "lengths, built the way applications build them: written through WriteBytes / WriteUint / WriteBit into a buffer of capacity "
+             "length + free for every (length mod 4) x free in 0..9, and into the cell capacity 1023 with lengths 1015..1023 (the harness "
+             "argument is the number of free bits; the model side runs the buffer-level ToFiftHex of C06 on that state); MsgAddress "
+             "extern / var holding such writer-built strings with 0..4 free bits; cells written by WriteBytes/WriteUint with 1010..1023 "
+             "bits are marshalled directly and via their re-parsed copy; MsgAddress: none, extern of 0 (known finding), 1,3,4,8,255,256,257,511 bits, std with workchains -128,-127,-1,0,1,"
              "126,127, var with lengths 0,1,4,7,8,252,255,256,257,260,511 x workchains -2^31..2^31-1 incl. -129,-128,127,128 (the 256-bit "
              "/ 8-bit-workchain look-alike is generated, compared with the model, and excluded from the oracle as the property says), each "
              "with no anycast / depth 1..30 / extreme uint32 anycast; ton.AccountID with int32 workchains; cells built from random DAGs "
-             "(1..40 cells, 0..4 refs, shared subtrees) as boc.Cell and as tlb.Any; Maybe[T] absent/present over 11 inner types. Per "
+             "(1..40 cells, 0..4 refs, shared subtrees) as boc.Cell and as tlb.Any; Maybe[T] absent/present over 11 inner types. Every Marshal / Unmarshal / UnmarshalJSON call runs under a watchdog (5 s): "
+             "a call that does not return is the outcome 'timeout and the oracle failure json-hang-<family> with the value (after 3 hangs "
+             "the run stops emitting). Per "
              "value: json.Marshal text vs the model's printer (byte exact), json.Valid, json.Unmarshal and a direct UnmarshalJSON call of "
              "that text vs the model's parser, oracle Unmarshal(Marshal(v)) == v (cells: representation hash). Malformed: 5 (12 thorough) "
              "mutations per printed document (truncate, drop prefix, substitute/insert from a 56-entry alphabet incl. quotes, signs, "
@@ -27,7 +33,9 @@ PROP = {
     'explanation': ("coq/Properties/C20.v, for the Gallina model (Model/JsonText.v, Model/Json.v) of the MarshalJSON / UnmarshalJSON "
                     "methods over byte strings: for EVERY width w and every value of that width (unsigned v < 2^w, signed "
                     "-2^(w-1) <= z < 2^(w-1)), every integer for the big.Int types, every byte array, all of uint64 / int64 for Grams / "
-                    "SignedCoins, every uint32 Magic, every bit list (no length bound), every well-formed MsgAddress of each of the four "
+                    "SignedCoins, every uint32 Magic, every bit list (no length bound) and every buffer state of a writer-built bit string "
+                    "(the printed text is ToFiftHex on the buffer as the Go code computes it with Copy/Grow/tag, proved to depend only on the "
+                    "written bits: not on the capacity nor on the buffer content past the length), every well-formed MsgAddress of each of the four "
                     "kinds with or without anycast except the two named ambiguities, every int32-workchain AccountID, every optional value "
                     "over such a family, and cells relative to the C01 serialiser round trip: parse (print v) = Ok v; the printed text is a "
                     "JSON number or a quoted string of characters that need no escape, is accepted by the (ported) encoding/json scanner, "
@@ -56,7 +64,7 @@ META = {
              "number or an escape-free string accepted by the encoding/json scanner and parses back to the same value, both through the "
              "method and through json.Unmarshal; syntactically invalid documents are errors; no parser panics on any input. The shapes "
              "of all 176 method pairs of tlb/integers.go, Grams and SignedCoins are re-extracted from today's source and checked against the model. The extracted "
-             "model reproduces json.Marshal / json.Unmarshal / UnmarshalJSON of the real code exactly on ~19k (quick) / ~370k (thorough) "
+             "model reproduces json.Marshal / json.Unmarshal / UnmarshalJSON of the real code exactly on ~20k (quick) / ~386k (thorough) "
              "structured, mutated and hand-written documents."),
     'design_ref': 'DESIGN.md §6 C20, §7 F8 F17',
     'note': ("Repair: F8 (SignedCoins.UnmarshalJSON used ParseUint, negatives failed). Known finding kept: F17 addr-extern-empty. "
